@@ -136,6 +136,11 @@ TypeOK == ref.commits \in 0..1 /\ ref.n \in 0..(MaxOps + 1)
 
 CommitOnce == ref.commits <= 1 /\ impl.uwCommits <= 1
 
+\* the inductive invariant that ResponseInd.tla proves for runs of ANY length (Apalache), checked here on the
+\* full Impl layer within the bound: ResponseInd is this layer reduced to the variables below
+ImplIndInv == /\ impl.uwCommits \in {0, 1} /\ (impl.headerSent <=> impl.uwCommits = 1)
+              /\ (impl.uwCommits = 1 => impl.uwStatus = impl.status)
+
 \* wire status/headers never change once committed
 FrozenAfterCommit ==
   [][ref.committed => /\ ref'.wstatus = ref.wstatus /\ ref'.whdr = ref.whdr /\ ref'.wck = ref.wck
